@@ -69,7 +69,7 @@ static void probe(char *out)
 }
 /* generated texts: documents whose numbers take every printf shape (%f %e %E %g, precision 0..17, signs, exponents),
  * next to strings containing '.' and ',' (which must not be touched) */
-#define MAXGEN 400
+#define MAXGEN 2500
 static pcase gcases[MAXGEN];
 static int ngen;
 static double rand_double(void)
